@@ -655,8 +655,10 @@ pub fn stats_faults(spec: &crate::Spec) -> Report {
         Flush,
         Down,
         Up,
+        /// the empty string is a legal metric for a sink: a datagram of zero bytes
+        Empty,
     }
-    let alpha: Vec<Op> = if which.starts_with("udp") { vec![Op::Small, Op::Big, Op::Flush] } else { vec![Op::Small, Op::Big, Op::Flush, Op::Down, Op::Up] };
+    let alpha: Vec<Op> = if which.starts_with("udp") { vec![Op::Small, Op::Big, Op::Flush, Op::Empty] } else { vec![Op::Small, Op::Big, Op::Flush, Op::Down, Op::Up, Op::Empty] };
     let buffered = which.ends_with("-buf");
     let cap = 16usize;
     for hist in sequences(&alpha, depth) {
